@@ -1129,7 +1129,7 @@ func C16() *kit.Spec {
 		SimTimeNote: "none: the containers have no timers; logical steps = executed operations",
 		NumRuns: func(tier string) int {
 			if tier == "thorough" {
-				return 130 * 8 * 201 * 12 // 2.5M histories, each (w,h) and size many times
+				return 130 * 8 * 201 * 60 // 12.5M histories, each (w,h) and size many times
 			}
 			return 130 * 8 * 201 // 209,040 histories
 		},
